@@ -100,7 +100,7 @@ def sentinel_idiom(call, f):
             if isinstance(seq, list) and node in seq:
                 following.extend(seq[seq.index(node) + 1:])
                 break
-        if isinstance(par, ast.Try) and node in par.body:
+        if isinstance(par, (ast.Try, ast.With)) and node in par.body:
             node = par
             continue
         break
@@ -157,7 +157,23 @@ def is_config(expr, local_cfg=()):
     return True
 
 
-def count_origin(name_or_expr, f, decoder_cls, depth=0):
+_CALLERS = {}
+
+
+def callers_of(cg, f):
+    """[(caller, call)] of every resolved call site of f."""
+    if id(cg) not in _CALLERS:
+        idx = {}
+        for g, sites in cg.sites.items():
+            for call, ts in sites:
+                for t in ts:
+                    idx.setdefault(t, []).append((g, call))
+        _CALLERS.clear()
+        _CALLERS[id(cg)] = idx
+    return _CALLERS[id(cg)].get(f, [])
+
+
+def count_origin(name_or_expr, f, decoder_cls, depth=0, cg=None):
     """-> ('CONFIG'|'BOUNDED'|'UNBOUNDED'|'UNKNOWN', why)"""
     e = name_or_expr
     if is_config(e):
@@ -171,28 +187,47 @@ def count_origin(name_or_expr, f, decoder_cls, depth=0):
                 binds.append(a.iter)
             elif isinstance(a, ast.AugAssign) and isinstance(a.target, ast.Name) and a.target.id == e.id:
                 binds.append(a.value)
+        if e.id in flow.param_names(f) and not binds:
+            # a count handed in by the callers: the worst origin over every resolved call site
+            order = {'CONFIG': 0, 'BOUNDED': 1, 'UNKNOWN': 2, 'UNBOUNDED': 3}
+            sites = callers_of(cg, f) if cg is not None and depth <= 10 else []
+            if not sites:
+                return 'UNKNOWN', 'parameter %s' % e.id
+            pur = effects.Purity.__new__(effects.Purity)
+            worst = ('CONFIG', '')
+            for g, call in sites:
+                a = effects.Purity._arg_for(pur, f, call, e.id)
+                if a is None:
+                    return 'UNKNOWN', 'parameter %s (argument not found at %s:%d)' % (e.id, g._mod.rel, call.lineno)
+                r = count_origin(a, g, decoder_cls, depth + 1, cg)
+                r = (r[0], '%s, passed by %s' % (r[1], Model.qual(g)))
+                if order[r[0]] > order[worst[0]]:
+                    worst = r
+            return worst
         if e.id in flow.param_names(f):
             return 'UNKNOWN', 'parameter %s' % e.id
-        if not binds or depth > 4:
+        if not binds or depth > 10:
             return 'UNKNOWN', 'no binding for %s' % e.id
         worst = ('CONFIG', '')
         order = {'CONFIG': 0, 'BOUNDED': 1, 'UNKNOWN': 2, 'UNBOUNDED': 3}
         for b in binds:
             if isinstance(b, ast.Constant) and b.value is None:
                 continue
-            r = count_origin(b, f, decoder_cls, depth + 1)
+            r = count_origin(b, f, decoder_cls, depth + 1, cg)
             if order[r[0]] > order[worst[0]]:
                 worst = r
         return worst
     if isinstance(e, ast.Call) and isinstance(e.func, ast.Attribute) and isinstance(e.func.value, ast.Name) \
             and e.func.value.id in ('decoder', 'self'):
         n = e.func.attr
+        def cfg(a, _f=f, _d=depth):     # configuration through helper parameters as well
+            return count_origin(a, _f, decoder_cls, _d + 1, cg)[0] == 'CONFIG'
         if n == 'read_constrained_whole_number':
-            if all(is_config(a) for a in e.args):
+            if all(cfg(a) for a in e.args):
                 return 'BOUNDED', '%s with configuration bounds' % n
             return 'UNBOUNDED', '%s with wire-derived bounds' % n
         if n in WIDTH_READS:
-            if e.args and is_config(e.args[0]):
+            if e.args and cfg(e.args[0]):
                 return 'BOUNDED', '%s of configuration width' % n
             return 'UNBOUNDED', '%s of wire-derived width' % n
         if n == 'read_length_determinant_chunks':
@@ -202,13 +237,29 @@ def count_origin(name_or_expr, f, decoder_cls, depth=0):
             if primitive_bounded(decoder_cls, n):
                 return 'BOUNDED', '%s.%s reads only constant widths' % (decoder_cls.qname, n)
             return 'UNBOUNDED', '%s.%s reads a wire-derived width (value up to 2^(8*127))' % (decoder_cls.qname, n)
+    if isinstance(e, ast.Call) and cg is not None and depth <= 10:
+        # a helper of the repository: the worst origin over its return values
+        ts = [t for t in cg.resolve_call(f, e)]
+        if ts:
+            order = {'CONFIG': 0, 'BOUNDED': 1, 'UNKNOWN': 2, 'UNBOUNDED': 3}
+            worst = ('CONFIG', '')
+            for t in ts:
+                rets = [n.value for n in walk_no_nested(t) if isinstance(n, ast.Return) and n.value is not None]
+                if not rets:
+                    return 'UNKNOWN', ast.unparse(e)
+                for rv in rets:
+                    r = count_origin(rv, t, decoder_cls, depth + 1, cg)
+                    r = (r[0], '%s, returned by %s' % (r[1], Model.qual(t)))
+                    if order[r[0]] > order[worst[0]]:
+                        worst = r
+            return worst
     if isinstance(e, (ast.BinOp, ast.UnaryOp, ast.IfExp, ast.Compare, ast.BoolOp)):
         worst = ('CONFIG', '')
         order = {'CONFIG': 0, 'BOUNDED': 1, 'UNKNOWN': 2, 'UNBOUNDED': 3}
         for ch in ast.iter_child_nodes(e):
             if isinstance(ch, (ast.operator, ast.unaryop, ast.cmpop, ast.boolop)):
                 continue
-            r = count_origin(ch, f, decoder_cls, depth + 1)
+            r = count_origin(ch, f, decoder_cls, depth + 1, cg)
             if order[r[0]] > order[worst[0]]:
                 worst = r
         return worst
@@ -246,7 +297,7 @@ def check(ctx):
                                   'result of %s: %s.  The callee returns (TAG_MISMATCH, start_offset) without advancing; used as a '
                                   'value it corrupts the result and, in a loop, never makes progress (hang).' % (ast.unparse(call.func), why),
                                   stmt=norm_stmt(Model.enclosing_stmt(call)))
-    ctx.floor('C08.R1', 9)
+    ctx.floor('C08.R1', 5)
 
     # ---- R2
     n_dec = 0
@@ -301,7 +352,7 @@ def check(ctx):
                     # iteration over a decoder generator is covered by T-READ; over config collections is bounded
                     continue
                 cnt = it.args[0]
-                kind, why = count_origin(cnt, f, dec_cls)
+                kind, why = count_origin(cnt, f, dec_cls, cg=cg)
                 cons = '%s [for .. in range(%s)]' % (Model.qual(f), ast.unparse(cnt))
                 if kind in ('CONFIG', 'BOUNDED'):
                     ctx.instance('C08.R3', cons, kind, why, node=node, file=rel)
@@ -328,6 +379,9 @@ def check(ctx):
                                                                      and isinstance(c.args[0].value, int) and c.args[0].value > 0):
                                     ok = True
                                     how = 'every iteration performs the consuming read %s' % c.func.attr
+                if not ok and kind == 'UNKNOWN':
+                    ctx.instance('C08.R3', cons, 'undecided', 'the origin of the count could not be traced: ' + why, node=node, file=rel)
+                    continue
                 ctx.instance('C08.R3', cons, 'WIRE-GUARDED' if ok else 'VIOLATION', how or why, node=node, file=rel)
                 if not ok:
                     ctx.violation('C08.R3', rel, node, Model.qual(f),
